@@ -211,9 +211,9 @@ def main():
     )
     chk.maybe_replay()
     sopht_modules()
-    s3 = [(5, 5, 5)] if chk.quick else [(5, 5, 5), (5, 6, 7), (4, 3, 6)]
-    s2 = [(5, 6)] if chk.quick else [(5, 6), (7, 5), (6, 6)]
-    sadv3 = [(5, 5, 6)] if chk.quick else [(5, 5, 6), (6, 5, 7)]
+    s3 = [(5, 5, 5), (5, 6, 7), (4, 3, 6)] if chk.quick else [(5, 5, 5), (5, 6, 7), (4, 3, 6), (7, 4, 5), (6, 7, 4), (3, 3, 3)]
+    s2 = [(5, 6), (7, 5), (6, 6)] if chk.quick else [(5, 6), (7, 5), (6, 6), (3, 3), (3, 9), (9, 3), (8, 7)]
+    sadv3 = [(5, 5, 6), (6, 5, 7)] if chk.quick else [(5, 5, 6), (6, 5, 7), (7, 6, 5), (5, 7, 5)]
     precisions = ["float64", "float32"]
     for rt in precisions:
         for sh in s3:
